@@ -78,6 +78,10 @@ func collectBucketCandidates(sw hydra.Swamp, hints []BucketHint) []treasure.Trea
 // path in beacon.findTimeRangeBounds and the documented SDK semantics
 // on Index.FromTime / Index.ToTime. Either or both bounds may be nil.
 func applyTimeRange(candidates []treasure.Treasure, beaconType hydra.BeaconType, fromTime, toTime *time.Time) []treasure.Treasure {
+	if beaconType == hydra.BeaconTypeKey {
+		// The key index has no time axis; the beacon walk ignores the window too.
+		return candidates
+	}
 	if fromTime == nil && toTime == nil {
 		return candidates
 	}
